@@ -1,5 +1,6 @@
 import TWV.Model.Rfa
 import TWV.Lemmas.Basic
+import TWV.Lemmas.PowLike
 
 /-!
 # Closed forms of the extended grids of `rfa.py`
@@ -12,6 +13,11 @@ import TWV.Lemmas.Basic
 
 extended interval `k` (`k ≤ m`) runs linearly from `xv k` to `xv (k + 1)` in `n` equal steps; the
 linear continuation of the last interval describes all later indices as well.
+
+The second half of the file (from "The shape functions under …" on) is stated for an *abstract*
+extended grid `X : ℕ → K` and abstract extended averages `Y : ℕ → K`: equivariance of the shape
+functions and transition values under affine maps, the neighbours each transition value reads,
+and the affine-combination (`Comb3`) form of every recreated value for given windows.
 
 Used by `TWV/Properties/C04.lean` and `C07.lean` (and available to `C05`, `C06`).
 -/
@@ -349,6 +355,526 @@ theorem YE_affine (y : ℕ → K) (a b : K) (m n p : ℕ) :
 theorem Yk_affine (y : ℕ → K) (a b : K) (m n k : ℕ) :
     Yk (fun i => a * y i + b) m n k = a * Yk y m n k + b :=
   YE_affine y a b m n (k * n)
+
+/-! ## The shape functions under `y ↦ a y + b` -/
+
+theorem linFit_affine_y (t x0 x1 y0 y1 a b : K) :
+    linFit t (x0, a * y0 + b) (x1, a * y1 + b) = a * linFit t (x0, y0) (x1, y1) + b := by
+  simp only [linFit]; ring
+
+theorem expFit_affine_y (pw : K → K) (t x0 x1 y0 y1 a b : K) :
+    expFit pw t (x0, a * y0 + b) (x1, a * y1 + b) = a * expFit pw t (x0, y0) (x1, y1) + b := by
+  simp only [expFit]; ring
+
+theorem expXYFit_affine_y (pw : K → K) (t x0 x1 y0 y1 a b : K) :
+    expXYFit pw t (x0, a * y0 + b) (x1, a * y1 + b) = a * expXYFit pw t (x0, y0) (x1, y1) + b := by
+  simp only [expXYFit]; ring
+
+/-- the two blends are affine-equivariant because their two weights `(t - x0)/(x1 - x0)` and
+`(x1 - t)/(x1 - x0)` sum to one — which needs `x0 ≠ x1` (for `x0 = x1` both weights are `0` in
+Lean and the code divides by zero) -/
+theorem expLinFit_affine_y (pw : K → K) (t x0 x1 y0 y1 a b : K) (h : x0 ≠ x1) :
+    expLinFit pw t (x0, a * y0 + b) (x1, a * y1 + b)
+      = a * expLinFit pw t (x0, y0) (x1, y1) + b := by
+  have hd : x1 - x0 ≠ 0 := sub_ne_zero.mpr (Ne.symm h)
+  simp only [expLinFit, linFit_affine_y, expFit_affine_y]
+  generalize linFit t (x0, y0) (x1, y1) = L
+  generalize expFit pw t (x0, y0) (x1, y1) = E
+  field_simp
+  ring
+
+theorem linExpXYFit_affine_y (pw : K → K) (t x0 x1 y0 y1 a b : K) (h : x0 ≠ x1) :
+    linExpXYFit pw t (x0, a * y0 + b) (x1, a * y1 + b)
+      = a * linExpXYFit pw t (x0, y0) (x1, y1) + b := by
+  have hd : x1 - x0 ≠ 0 := sub_ne_zero.mpr (Ne.symm h)
+  simp only [linExpXYFit, linFit_affine_y, expXYFit_affine_y]
+  generalize linFit t (x0, y0) (x1, y1) = L
+  generalize expXYFit pw t (x0, y0) (x1, y1) = E
+  field_simp
+  ring
+
+/-- pure rescaling needs no hypothesis -/
+theorem expLinFit_scale_y (pw : K → K) (t x0 x1 y0 y1 a : K) :
+    expLinFit pw t (x0, a * y0) (x1, a * y1) = a * expLinFit pw t (x0, y0) (x1, y1) := by
+  simp only [expLinFit, linFit, expFit]; ring
+
+theorem linExpXYFit_scale_y (pw : K → K) (t x0 x1 y0 y1 a : K) :
+    linExpXYFit pw t (x0, a * y0) (x1, a * y1) = a * linExpXYFit pw t (x0, y0) (x1, y1) := by
+  simp only [linExpXYFit, linFit, expXYFit]; ring
+
+/-! ## The shape functions under `x ↦ c x + d` -/
+
+theorem ratio_affine (c d s t u v : K) (hc : c ≠ 0) :
+    (c * s + d - (c * t + d)) / (c * u + d - (c * v + d)) = (s - t) / (u - v) := by
+  rw [show c * s + d - (c * t + d) = c * (s - t) by ring,
+    show c * u + d - (c * v + d) = c * (u - v) by ring, mul_div_mul_left _ _ hc]
+
+theorem linFit_ratio (t : K) (p0 p1 : K × K) :
+    linFit t p0 p1 = p0.2 + (p1.2 - p0.2) * ((t - p0.1) / (p1.1 - p0.1)) := by
+  simp only [linFit, mul_div_assoc]
+
+theorem expLinFit_ratio (pw : K → K) (t : K) (p0 p1 : K × K) :
+    expLinFit pw t p0 p1 = linFit t p0 p1 * ((t - p0.1) / (p1.1 - p0.1))
+      + expFit pw t p0 p1 * ((p1.1 - t) / (p1.1 - p0.1)) := by
+  simp only [expLinFit, mul_div_assoc]
+
+theorem linExpXYFit_ratio (pw : K → K) (t : K) (p0 p1 : K × K) :
+    linExpXYFit pw t p0 p1 = expXYFit pw t p0 p1 * ((t - p0.1) / (p1.1 - p0.1))
+      + linFit t p0 p1 * ((p1.1 - t) / (p1.1 - p0.1)) := by
+  simp only [linExpXYFit, mul_div_assoc]
+
+theorem linFit_affine_x (t x0 x1 y0 y1 c d : K) (hc : c ≠ 0) :
+    linFit (c * t + d) (c * x0 + d, y0) (c * x1 + d, y1) = linFit t (x0, y0) (x1, y1) := by
+  simp only [linFit_ratio, ratio_affine _ _ _ _ _ _ hc]
+
+theorem expFit_affine_x (pw : K → K) (t x0 x1 y0 y1 c d : K) (hc : c ≠ 0) :
+    expFit pw (c * t + d) (c * x0 + d, y0) (c * x1 + d, y1) = expFit pw t (x0, y0) (x1, y1) := by
+  simp only [expFit, ratio_affine _ _ _ _ _ _ hc]
+
+theorem expXYFit_affine_x (pw : K → K) (t x0 x1 y0 y1 c d : K) (hc : c ≠ 0) :
+    expXYFit pw (c * t + d) (c * x0 + d, y0) (c * x1 + d, y1)
+      = expXYFit pw t (x0, y0) (x1, y1) := by
+  simp only [expXYFit, ratio_affine _ _ _ _ _ _ hc]
+
+theorem expLinFit_affine_x (pw : K → K) (t x0 x1 y0 y1 c d : K) (hc : c ≠ 0) :
+    expLinFit pw (c * t + d) (c * x0 + d, y0) (c * x1 + d, y1)
+      = expLinFit pw t (x0, y0) (x1, y1) := by
+  simp only [expLinFit_ratio, linFit_affine_x _ _ _ _ _ _ _ hc, expFit_affine_x _ _ _ _ _ _ _ _ hc,
+    ratio_affine _ _ _ _ _ _ hc]
+
+theorem linExpXYFit_affine_x (pw : K → K) (t x0 x1 y0 y1 c d : K) (hc : c ≠ 0) :
+    linExpXYFit pw (c * t + d) (c * x0 + d, y0) (c * x1 + d, y1)
+      = linExpXYFit pw t (x0, y0) (x1, y1) := by
+  simp only [linExpXYFit_ratio, linFit_affine_x _ _ _ _ _ _ _ hc,
+    expXYFit_affine_x _ _ _ _ _ _ _ _ hc, ratio_affine _ _ _ _ _ _ hc]
+
+/-! ## Transition values under `Y ↦ a Y + b` (abstract grid) -/
+
+section AffineY
+
+variable (X Y : ℕ → K) (n : ℕ) (w : Windows) (ad : Bool) (a b : K)
+
+theorem z0_affine_y (k : ℕ) :
+    z0 X (fun q => a * Y q + b) n w ad k = a * z0 X Y n w ad k + b := by
+  unfold z0
+  split_ifs
+  · rfl
+  · exact linFit_affine_y ..
+
+theorem z0lb_affine_y (k : ℕ) :
+    z0lb X (fun q => a * Y q + b) n w ad k = a * z0lb X Y n w ad k + b := by
+  unfold z0lb
+  simp only [z0_affine_y]
+  split_ifs
+  · rfl
+  · exact linFit_affine_y ..
+
+theorem z0rb_affine_y (k : ℕ) :
+    z0rb X (fun q => a * Y q + b) n w ad k = a * z0rb X Y n w ad k + b := by
+  unfold z0rb
+  simp only [z0_affine_y]
+  split_ifs
+  · rfl
+  · exact linFit_affine_y ..
+
+theorem linRight_affine_y (k i : ℕ) :
+    linRight X (fun q => a * Y q + b) n w ad k i = a * linRight X Y n w ad k i + b := by
+  unfold linRight
+  simp only [z0_affine_y]
+  exact linFit_affine_y ..
+
+theorem linOut_affine_y (m j : ℕ) :
+    linOut X (fun q => a * Y q + b) m n w ad j = a * linOut X Y m n w ad j + b := by
+  unfold linOut
+  simp only [z0_affine_y, linRight_affine_y]
+  split_ifs
+  · exact linFit_affine_y ..
+  · rfl
+  · rfl
+  · rfl
+
+/-- the exponential strategies: the two blended pieces need distinct fit abscissae, which the
+branch conditions give on an injective grid -/
+theorem expOut_affine_y (pw : K → K) (hX : Function.Injective X) (m j : ℕ) :
+    expOut pw X (fun q => a * Y q + b) m n w ad j = a * expOut pw X Y m n w ad j + b := by
+  unfold expOut
+  simp only [z0_affine_y, z0lb_affine_y, z0rb_affine_y]
+  split_ifs with h1 h2 h3 h4 h5
+  · exact linFit_affine_y ..
+  · apply linExpXYFit_affine_y
+    intro he
+    have := hX he
+    omega
+  · apply expLinFit_affine_y
+    intro he
+    have := hX he
+    omega
+  · exact linFit_affine_y ..
+  · rfl
+  · rfl
+
+/-- pure rescaling (`b = 0`) needs no hypothesis on the grid -/
+theorem expOut_scale_y (pw : K → K) (m j : ℕ) :
+    expOut pw X (fun q => a * Y q) m n w ad j = a * expOut pw X Y m n w ad j := by
+  have e : (fun q => a * Y q) = (fun q => a * Y q + 0) := by funext q; rw [add_zero]
+  have l0 : ∀ t x0 x1 y0 y1 : K, linFit t (x0, a * y0) (x1, a * y1)
+      = a * linFit t (x0, y0) (x1, y1) := by
+    intro t x0 x1 y0 y1
+    have := linFit_affine_y t x0 x1 y0 y1 a 0
+    simpa using this
+  unfold expOut
+  simp only [e, z0_affine_y, z0lb_affine_y, z0rb_affine_y, add_zero]
+  split_ifs
+  · exact l0 ..
+  · exact linExpXYFit_scale_y ..
+  · exact expLinFit_scale_y ..
+  · exact l0 ..
+  · rfl
+  · rfl
+
+end AffineY
+
+/-! ## Transition values under `X ↦ c X + d` -/
+
+section AffineX
+
+variable (X Y : ℕ → K) (n : ℕ) (w : Windows) (ad : Bool) (c d : K) (hc : c ≠ 0)
+include hc
+
+theorem z0_affine_x (k : ℕ) :
+    z0 (fun p => c * X p + d) Y n w ad k = z0 X Y n w ad k := by
+  unfold z0
+  simp only [linFit_affine_x _ _ _ _ _ _ _ hc]
+
+theorem z0lb_affine_x (k : ℕ) :
+    z0lb (fun p => c * X p + d) Y n w ad k = z0lb X Y n w ad k := by
+  unfold z0lb
+  simp only [z0_affine_x X Y n w ad c d hc, linFit_affine_x _ _ _ _ _ _ _ hc]
+
+theorem z0rb_affine_x (k : ℕ) :
+    z0rb (fun p => c * X p + d) Y n w ad k = z0rb X Y n w ad k := by
+  unfold z0rb
+  simp only [z0_affine_x X Y n w ad c d hc, linFit_affine_x _ _ _ _ _ _ _ hc]
+
+theorem linRight_affine_x (k i : ℕ) :
+    linRight (fun p => c * X p + d) Y n w ad k i = linRight X Y n w ad k i := by
+  unfold linRight
+  simp only [z0_affine_x X Y n w ad c d hc, linFit_affine_x _ _ _ _ _ _ _ hc]
+
+theorem linOut_affine_x (m j : ℕ) :
+    linOut (fun p => c * X p + d) Y m n w ad j = linOut X Y m n w ad j := by
+  unfold linOut
+  simp only [z0_affine_x X Y n w ad c d hc, linRight_affine_x X Y n w ad c d hc,
+    linFit_affine_x _ _ _ _ _ _ _ hc]
+
+theorem expOut_affine_x (pw : K → K) (m j : ℕ) :
+    expOut pw (fun p => c * X p + d) Y m n w ad j = expOut pw X Y m n w ad j := by
+  unfold expOut
+  simp only [z0_affine_x X Y n w ad c d hc, z0lb_affine_x X Y n w ad c d hc,
+    z0rb_affine_x X Y n w ad c d hc, linFit_affine_x _ _ _ _ _ _ _ hc,
+    expLinFit_affine_x _ _ _ _ _ _ _ _ hc, linExpXYFit_affine_x _ _ _ _ _ _ _ _ hc]
+
+end AffineX
+
+/-! ## The adaptive windows only read ratios of absolute jumps -/
+
+theorem adaptiveAt_affine_y (gpow : K → K) (A : ℕ) (Y : ℕ → K) (a b : K) (ha : a ≠ 0) (k : ℕ) :
+    adaptiveAt gpow A (fun q => a * Y q + b) k = adaptiveAt gpow A Y k := by
+  have ha' : |a| ≠ 0 := abs_ne_zero.mpr ha
+  have e : ∀ s t : K, |a * s + b - (a * t + b)| = |a| * |s - t| := by
+    intro s t
+    rw [show a * s + b - (a * t + b) = a * (s - t) by ring, abs_mul]
+  unfold adaptiveAt
+  simp only [absK_eq, e, mul_eq_zero, ha', false_or, mul_div_mul_left _ _ ha']
+
+theorem windowsAdaptive_affine_y (gpow : K → K) (A m : ℕ) (Y : ℕ → K) (bOf : ℕ → ℕ) (a b : K)
+    (ha : a ≠ 0) :
+    windowsAdaptive gpow A m (fun q => a * Y q + b) bOf = windowsAdaptive gpow A m Y bOf := by
+  unfold windowsAdaptive
+  simp only [adaptiveAt_affine_y gpow A Y a b ha]
+
+/-- `adaptiveAt … k` only reads `Y (k-1)`, `Y k`, `Y (k+1)` -/
+theorem adaptiveAt_local (gpow : K → K) (A : ℕ) (Y Y' : ℕ → K) (k : ℕ)
+    (h0 : Y (k - 1) = Y' (k - 1)) (h1 : Y k = Y' k) (h2 : Y (k + 1) = Y' (k + 1)) :
+    adaptiveAt gpow A Y k = adaptiveAt gpow A Y' k := by
+  unfold adaptiveAt
+  rw [h0, h1, h2]
+
+/-! ## Locality: which neighbours each transition value reads -/
+
+/-- averages and windows agree at extended interval `k` -/
+def AgreeAt (Y Y' : ℕ → K) (w w' : Windows) (k : ℕ) : Prop :=
+  Y k = Y' k ∧ w.aL k = w'.aL k ∧ w.aR k = w'.aR k ∧ w.bL k = w'.bL k ∧ w.bR k = w'.bR k
+
+section Local
+
+variable (X : ℕ → K) {Y Y' : ℕ → K} (n : ℕ) {w w' : Windows} (ad : Bool)
+
+/-- `z0 (q+1)` reads intervals `q` and `q+1` -/
+theorem z0_congr {q : ℕ} (h0 : AgreeAt Y Y' w w' q) (h1 : AgreeAt Y Y' w w' (q + 1)) :
+    z0 X Y n w ad (q + 1) = z0 X Y' n w' ad (q + 1) := by
+  obtain ⟨hY0, -, hR0, -, -⟩ := h0
+  obtain ⟨hY1, hL1, -, -, -⟩ := h1
+  unfold z0
+  simp only [Nat.add_sub_cancel]
+  rw [hY0, hR0, hY1, hL1]
+
+theorem z0lb_congr {q : ℕ} (h0 : AgreeAt Y Y' w w' q) (h1 : AgreeAt Y Y' w w' (q + 1)) :
+    z0lb X Y n w ad (q + 1) = z0lb X Y' n w' ad (q + 1) := by
+  have hz := z0_congr X n ad h0 h1
+  obtain ⟨hY1, hL1, -, hbL1, -⟩ := h1
+  unfold z0lb
+  rw [hz, hY1, hL1, hbL1]
+
+theorem z0rb_congr {q : ℕ} (h1 : AgreeAt Y Y' w w' (q + 1)) (h2 : AgreeAt Y Y' w w' (q + 1 + 1)) :
+    z0rb X Y n w ad (q + 1) = z0rb X Y' n w' ad (q + 1) := by
+  have hz := z0_congr X n ad h1 h2
+  obtain ⟨hY1, -, hR1, -, hbR1⟩ := h1
+  unfold z0rb
+  rw [hz, hY1, hR1, hbR1]
+
+theorem linRight_congr {q : ℕ} (h0 : AgreeAt Y Y' w w' q) (h1 : AgreeAt Y Y' w w' (q + 1))
+    (i : ℕ) : linRight X Y n w ad q i = linRight X Y' n w' ad q i := by
+  have hz := z0_congr X n ad h0 h1
+  obtain ⟨hY0, -, hR0, -, -⟩ := h0
+  unfold linRight
+  rw [hz, hY0, hR0]
+
+/-- the linear strategies at result index `j` (extended interval `j / n + 1`) read the averages
+and windows of extended intervals `j / n`, `j / n + 1`, `j / n + 2` only -/
+theorem linOut_congr (m j : ℕ) (h0 : AgreeAt Y Y' w w' (j / n))
+    (h1 : AgreeAt Y Y' w w' (j / n + 1)) (h2 : AgreeAt Y Y' w w' (j / n + 1 + 1)) :
+    linOut X Y m n w ad j = linOut X Y' m n w' ad j := by
+  have hz1 := z0_congr X n ad h0 h1
+  have hr0 := linRight_congr X n ad h0 h1 n
+  have hr1 := linRight_congr X n ad h1 h2 (j % n)
+  obtain ⟨-, -, hR0, -, -⟩ := h0
+  obtain ⟨hY1, hL1, hR1, -, -⟩ := h1
+  unfold linOut
+  simp only [Nat.add_sub_cancel]
+  rw [hz1, hr0, hr1, hY1, hL1, hR1, hR0]
+
+theorem expOut_congr (pw : K → K) (m j : ℕ) (h0 : AgreeAt Y Y' w w' (j / n))
+    (h1 : AgreeAt Y Y' w w' (j / n + 1)) (h2 : AgreeAt Y Y' w w' (j / n + 1 + 1)) :
+    expOut pw X Y m n w ad j = expOut pw X Y' m n w' ad j := by
+  have hz1 := z0_congr X n ad h0 h1
+  have hz2 := z0_congr X n ad h1 h2
+  have hlb := z0lb_congr X n ad h0 h1
+  have hrb := z0rb_congr X n ad h1 h2
+  obtain ⟨hY1, hL1, hR1, hbL1, hbR1⟩ := h1
+  unfold expOut
+  simp only []
+  rw [hz1, hz2, hlb, hrb, hY1, hL1, hR1, hbL1, hbR1]
+
+end Local
+
+/-! ## For given windows every recreated value is an affine combination of three averages
+
+`Comb3 S q f`: there are weights `c₀ c₁ c₂`, **independent of `Y`**, with `c₀ + c₁ + c₂ = 1` and
+`f Y = c₀ Y q + c₁ Y (q+1) + c₂ Y (q+2)`; if the side condition `S` holds the weights are
+non-negative.  (`S := False` gives the bare affine statement, `S := True` the convex one.) -/
+
+def Comb3 (S : Prop) (q : ℕ) (f : (ℕ → K) → K) : Prop :=
+  ∃ c0 c1 c2 : K, c0 + c1 + c2 = 1 ∧ (S → 0 ≤ c0 ∧ 0 ≤ c1 ∧ 0 ≤ c2) ∧
+    ∀ Y : ℕ → K, f Y = c0 * Y q + c1 * Y (q + 1) + c2 * Y (q + 2)
+
+namespace Comb3
+
+variable {S : Prop} {q : ℕ}
+
+theorem proj0 : Comb3 (K := K) S q (fun Y => Y q) :=
+  ⟨1, 0, 0, by ring, fun _ => ⟨zero_le_one, le_rfl, le_rfl⟩, fun Y => by ring⟩
+
+theorem proj1 : Comb3 (K := K) S q (fun Y => Y (q + 1)) :=
+  ⟨0, 1, 0, by ring, fun _ => ⟨le_rfl, zero_le_one, le_rfl⟩, fun Y => by ring⟩
+
+theorem proj2 : Comb3 (K := K) S q (fun Y => Y (q + 2)) :=
+  ⟨0, 0, 1, by ring, fun _ => ⟨le_rfl, le_rfl, zero_le_one⟩, fun Y => by ring⟩
+
+/-- mixing two combinations with a fixed weight `μ` (in `[0,1]` under `S`) -/
+theorem mix {f g : (ℕ → K) → K} (hf : Comb3 S q f) (hg : Comb3 S q g) (μ : K)
+    (hμ : S → 0 ≤ μ ∧ μ ≤ 1) : Comb3 S q (fun Y => f Y + (g Y - f Y) * μ) := by
+  obtain ⟨a0, a1, a2, ha, hsa, hfa⟩ := hf
+  obtain ⟨b0, b1, b2, hb, hsb, hgb⟩ := hg
+  refine ⟨(1 - μ) * a0 + μ * b0, (1 - μ) * a1 + μ * b1, (1 - μ) * a2 + μ * b2, ?_, ?_, ?_⟩
+  · have : (1 - μ) * a0 + μ * b0 + ((1 - μ) * a1 + μ * b1) + ((1 - μ) * a2 + μ * b2)
+        = (1 - μ) * (a0 + a1 + a2) + μ * (b0 + b1 + b2) := by ring
+    rw [this, ha, hb]; ring
+  · intro s
+    obtain ⟨h0, h1⟩ := hμ s
+    obtain ⟨p0, p1, p2⟩ := hsa s
+    obtain ⟨r0, r1, r2⟩ := hsb s
+    have h1' : 0 ≤ 1 - μ := sub_nonneg.mpr h1
+    exact ⟨add_nonneg (mul_nonneg h1' p0) (mul_nonneg h0 r0),
+      add_nonneg (mul_nonneg h1' p1) (mul_nonneg h0 r1),
+      add_nonneg (mul_nonneg h1' p2) (mul_nonneg h0 r2)⟩
+  · intro Y
+    simp only [hfa, hgb]; ring
+
+theorem congr {f g : (ℕ → K) → K} (hf : Comb3 S q f) (h : ∀ Y, g Y = f Y) : Comb3 S q g := by
+  have : g = f := funext h
+  rwa [this]
+
+/-- the weight of a linear fit lies in `[0,1]` when the argument lies between the abscissae
+(also in the degenerate case `x0 = x1`, where Lean's quotient is `0`) -/
+theorem ratio_mem {t x0 x1 : K} (h0 : x0 ≤ t) (h1 : t ≤ x1) :
+    0 ≤ (t - x0) / (x1 - x0) ∧ (t - x0) / (x1 - x0) ≤ 1 := by
+  have hd : 0 ≤ x1 - x0 := by linarith
+  refine ⟨div_nonneg (by linarith) hd, ?_⟩
+  rcases hd.eq_or_lt with h | h
+  · rw [← h, div_zero]; exact zero_le_one
+  · rw [div_le_one h]; linarith
+
+theorem linFit {f g : (ℕ → K) → K} (hf : Comb3 S q f) (hg : Comb3 S q g) (t x0 x1 : K)
+    (ht : S → x0 ≤ t ∧ t ≤ x1) :
+    Comb3 S q (fun Y => TWV.linFit t (x0, f Y) (x1, g Y)) :=
+  (mix hf hg ((t - x0) / (x1 - x0)) (fun s => ratio_mem (ht s).1 (ht s).2)).congr
+    (fun _ => linFit_ratio _ _ _)
+
+/-- `exp_lin_fit` is a mix with weight `s² + pw(s)·(1 - s)`, `s = (t - x0)/(x1 - x0)` -/
+theorem expLinFit_eq_mix (pw : K → K) (t x0 x1 A B : K) (h : x0 ≠ x1) :
+    TWV.expLinFit pw t (x0, A) (x1, B)
+      = A + (B - A) * ((t - x0) / (x1 - x0) * ((t - x0) / (x1 - x0))
+          + pw ((t - x0) / (x1 - x0)) * (1 - (t - x0) / (x1 - x0))) := by
+  have hd : x1 - x0 ≠ 0 := sub_ne_zero.mpr (Ne.symm h)
+  have h1 : (x1 - t) / (x1 - x0) = 1 - (t - x0) / (x1 - x0) := by
+    rw [eq_sub_iff_add_eq, ← add_div, div_eq_one_iff_eq hd]; ring
+  rw [expLinFit_ratio, linFit_ratio]
+  simp only [TWV.expFit, h1]
+  ring
+
+/-- `lin_exp_xy_fit` is a mix with weight `(1 - pw(1 - s))·s + s·(1 - s)` -/
+theorem linExpXYFit_eq_mix (pw : K → K) (t x0 x1 A B : K) (h : x0 ≠ x1) :
+    TWV.linExpXYFit pw t (x0, A) (x1, B)
+      = A + (B - A) * ((1 - pw (1 - (t - x0) / (x1 - x0))) * ((t - x0) / (x1 - x0))
+          + (t - x0) / (x1 - x0) * (1 - (t - x0) / (x1 - x0))) := by
+  have hd : x1 - x0 ≠ 0 := sub_ne_zero.mpr (Ne.symm h)
+  have h1 : (x1 - t) / (x1 - x0) = 1 - (t - x0) / (x1 - x0) := by
+    rw [eq_sub_iff_add_eq, ← add_div, div_eq_one_iff_eq hd]; ring
+  rw [linExpXYFit_ratio, linFit_ratio]
+  simp only [TWV.expXYFit, h1]
+  ring
+
+theorem expLinFit {f g : (ℕ → K) → K} (hf : Comb3 S q f) (hg : Comb3 S q g) (pw : K → K)
+    (t x0 x1 : K) (hne : x0 ≠ x1) (ht : S → PowLike pw ∧ x0 ≤ t ∧ t ≤ x1) :
+    Comb3 S q (fun Y => TWV.expLinFit pw t (x0, f Y) (x1, g Y)) := by
+  refine (mix hf hg _ ?_).congr (fun Y => expLinFit_eq_mix pw t x0 x1 _ _ hne)
+  intro s
+  obtain ⟨hp, h0, h1⟩ := ht s
+  obtain ⟨r0, r1⟩ := ratio_mem h0 h1
+  have p0 := hp.nonneg _ r0 r1
+  have p1 := hp.le_one _ r0 r1
+  constructor
+  · nlinarith [mul_nonneg r0 r0, mul_nonneg p0 (sub_nonneg.mpr r1)]
+  · nlinarith [mul_nonneg r0 (sub_nonneg.mpr r1), mul_nonneg (sub_nonneg.mpr p1) (sub_nonneg.mpr r1)]
+
+theorem linExpXYFit {f g : (ℕ → K) → K} (hf : Comb3 S q f) (hg : Comb3 S q g) (pw : K → K)
+    (t x0 x1 : K) (hne : x0 ≠ x1) (ht : S → PowLike pw ∧ x0 ≤ t ∧ t ≤ x1) :
+    Comb3 S q (fun Y => TWV.linExpXYFit pw t (x0, f Y) (x1, g Y)) := by
+  refine (mix hf hg _ ?_).congr (fun Y => linExpXYFit_eq_mix pw t x0 x1 _ _ hne)
+  intro s
+  obtain ⟨hp, h0, h1⟩ := ht s
+  obtain ⟨r0, r1⟩ := ratio_mem h0 h1
+  have r1' : 0 ≤ 1 - (t - x0) / (x1 - x0) := sub_nonneg.mpr r1
+  have r1'' : 1 - (t - x0) / (x1 - x0) ≤ 1 := by linarith
+  have p0 := hp.nonneg _ r1' r1''
+  have p1 := hp.le_one _ r1' r1''
+  constructor
+  · nlinarith [mul_nonneg (sub_nonneg.mpr p1) r0, mul_nonneg r0 r1']
+  · nlinarith [mul_nonneg p0 r0, mul_nonneg r0 r1', mul_nonneg r1' r1']
+
+end Comb3
+
+section Weights
+
+variable {S : Prop} (X : ℕ → K) (n : ℕ) (w : Windows) (ad : Bool)
+
+/-- the border value `z0 (k+1)` from combinations for `Y k` and `Y (k+1)` -/
+theorem z0_comb3 {q k : ℕ} (hA : Comb3 S q (fun Y : ℕ → K => Y k))
+    (hB : Comb3 S q (fun Y : ℕ → K => Y (k + 1))) (hS : S → Monotone X) :
+    Comb3 S q (fun Y => z0 X Y n w ad (k + 1)) := by
+  unfold z0
+  simp only [Nat.add_sub_cancel]
+  split_ifs
+  · exact hA
+  · exact Comb3.linFit hA hB _ _ _
+      (fun s => ⟨hS s (Nat.sub_le _ _), hS s (Nat.le_add_right _ _)⟩)
+
+theorem z0lb_comb3 {q k : ℕ} (hA : Comb3 S q (fun Y : ℕ → K => Y k))
+    (hB : Comb3 S q (fun Y : ℕ → K => Y (k + 1))) (hS : S → Monotone X ∧ w.bL (k + 1) ≤ w.aL (k + 1)) :
+    Comb3 S q (fun Y => z0lb X Y n w ad (k + 1)) := by
+  have hz := z0_comb3 X n w ad hA hB (fun s => (hS s).1)
+  unfold z0lb
+  split_ifs
+  · exact hz
+  · exact Comb3.linFit hz hB _ _ _
+      (fun s => ⟨(hS s).1 (Nat.le_add_right _ _), (hS s).1 (Nat.add_le_add_left (hS s).2 _)⟩)
+
+theorem z0rb_comb3 {q k : ℕ} (hB : Comb3 S q (fun Y : ℕ → K => Y (k + 1)))
+    (hC : Comb3 S q (fun Y : ℕ → K => Y (k + 1 + 1)))
+    (hS : S → Monotone X ∧ w.bR (k + 1) ≤ w.aR (k + 1)) :
+    Comb3 S q (fun Y => z0rb X Y n w ad (k + 1)) := by
+  have hz := z0_comb3 X n w ad hB hC (fun s => (hS s).1)
+  unfold z0rb
+  split_ifs
+  · exact hz
+  · refine Comb3.linFit hB hz _ _ _ (fun s => ⟨(hS s).1 ?_, (hS s).1 ?_⟩)
+    · have := (hS s).2; omega
+    · rw [Nat.add_mul (k + 1) 1 n, Nat.one_mul]; omega
+
+theorem linRight_comb3 {q k : ℕ} (i : ℕ) (hA : Comb3 S q (fun Y : ℕ → K => Y k))
+    (hB : Comb3 S q (fun Y : ℕ → K => Y (k + 1)))
+    (hS : S → Monotone X ∧ n - w.aR k ≤ i ∧ i ≤ n) :
+    Comb3 S q (fun Y => linRight X Y n w ad k i) := by
+  have hz := z0_comb3 X n w ad hA hB (fun s => (hS s).1)
+  unfold linRight
+  refine Comb3.linFit hA hz _ _ _ (fun s => ⟨(hS s).1 ?_, (hS s).1 ?_⟩)
+  · have := (hS s).2; omega
+  · have := (hS s).2; omega
+
+/-- **linear strategies, windows given**: the value at result index `j` is an affine combination
+of the averages of extended intervals `j/n`, `j/n+1`, `j/n+2` — convex on a monotone grid -/
+theorem linOut_comb3 (m j : ℕ) (hn : 0 < n) (hS : S → Monotone X) :
+    Comb3 S (j / n) (fun Y => linOut X Y m n w ad j) := by
+  have hi : j % n < n := Nat.mod_lt _ hn
+  have hz1 := z0_comb3 X n w ad (q := j / n) Comb3.proj0 Comb3.proj1 hS
+  unfold linOut
+  simp only [Nat.add_sub_cancel]
+  split_ifs with h1 h2 h3
+  · exact Comb3.linFit hz1 Comb3.proj1 _ _ _
+      (fun s => ⟨hS s (Nat.le_add_right _ _), hS s (Nat.add_le_add_left (le_of_lt h1.2) _)⟩)
+  · exact linRight_comb3 X n w ad _ Comb3.proj1 Comb3.proj2
+      (fun s => ⟨hS s, by omega, by omega⟩)
+  · exact linRight_comb3 X n w ad _ Comb3.proj0 Comb3.proj1
+      (fun s => ⟨hS s, by omega, le_rfl⟩)
+  · exact Comb3.proj1
+
+/-- **exponential strategies, windows given** -/
+theorem expOut_comb3 (pw : K → K) (m j : ℕ) (hn : 0 < n) (hX : StrictMono X)
+    (hS : S → PowLike pw ∧ w.bL (j / n + 1) ≤ w.aL (j / n + 1)
+      ∧ w.bR (j / n + 1) ≤ w.aR (j / n + 1)) :
+    Comb3 S (j / n) (fun Y => expOut pw X Y m n w ad j) := by
+  have hi : j % n < n := Nat.mod_lt _ hn
+  have hmono : Monotone X := hX.monotone
+  have hz1 := z0_comb3 X n w ad (S := S) (q := j / n) Comb3.proj0 Comb3.proj1 (fun _ => hmono)
+  have hz2 := z0_comb3 X n w ad (S := S) (q := j / n) Comb3.proj1 Comb3.proj2 (fun _ => hmono)
+  have hlb := z0lb_comb3 X n w ad (S := S) (q := j / n) Comb3.proj0 Comb3.proj1
+    (fun s => ⟨hmono, (hS s).2.1⟩)
+  have hrb := z0rb_comb3 X n w ad (S := S) (q := j / n) Comb3.proj1 Comb3.proj2
+    (fun s => ⟨hmono, (hS s).2.2⟩)
+  unfold expOut
+  simp only []
+  split_ifs with h1 h2 h3 h4 h5
+  · exact Comb3.linFit hz1 hlb _ _ _ (fun _ => ⟨hmono (by omega), hmono (by omega)⟩)
+  · refine Comb3.linExpXYFit hlb Comb3.proj1 pw _ _ _ (hX.injective.ne (by omega))
+      (fun s => ⟨(hS s).1, hmono (by omega), hmono (by omega)⟩)
+  · refine Comb3.expLinFit Comb3.proj1 hrb pw _ _ _ (hX.injective.ne (by omega))
+      (fun s => ⟨(hS s).1, hmono (by omega), hmono (by omega)⟩)
+  · exact Comb3.linFit hrb hz2 _ _ _ (fun _ => ⟨hmono (by omega), hmono (by omega)⟩)
+  · exact Comb3.proj1
+  · exact Comb3.proj1
+
+end Weights
 
 end Rfa
 end TWV
